@@ -20,12 +20,19 @@ QUICK = [
     ("S2", HOLD_DESC, 2, "DELCORE"),
     ("S1", DROP_ASC, 2, "DEL"),
 ]
-THOROUGH = []
-for _c in (DROP_ASC, HOLD_DESC, DROP_DESC, HOLD_ASC):
-    THOROUGH += [("S4", _c, 3, "DEL"), ("S4r", _c, 2, "DEL"), ("S2", _c, 3, "DEL"), ("S1", _c, 4, "DEL"), ("S2r", _c, 3, "DEL"),
-                 ("S1", _c, 3, "FULL"), ("S4", _c, 4, "DELCORE")]
-
-THOROUGH += [("S2", GC_DROP, 2, "GCOPS"), ("S4", GC_DROP, 1, "GCOPS")]
+THOROUGH = [
+    ("S4", DROP_ASC, 2, "DEL"),
+    ("S4", HOLD_DESC, 2, "DEL"),
+    ("S4", DROP_DESC, 3, "DELCORE"),
+    ("S4r", HOLD_ASC, 2, "DEL"),
+    ("S2", HOLD_DESC, 2, "DEL"),
+    ("S2", DROP_ASC, 3, "DELCORE"),
+    ("S1", DROP_ASC, 3, "DEL"),
+    ("S2r", DROP_DESC, 2, "DEL"),
+    ("S1", HOLD_ASC, 2, "FULL"),
+    ("S2", GC_DROP, 2, "GCOPS"),
+    ("S4", GC_DROP, 1, "GCOPS"),
+]
 
 P = TreeProp(
     "C05",
